@@ -534,6 +534,91 @@ theorem source_export_vertices_edges_in_range (order n : Nat) (rv : Bool) :
     simp only []
     constructor <;> omega
 
+/-! ## round 7: the ring loops of `SurfaceConnectionVertices._initialize` in closed form, and their closure -/
+
+/-- on a duplicate-free ring the transport the FEATURE loop writes for neighbour `w` is `(ang₀ + Σ corner angles met before w) · dfct / total_angle[u]` -/
+theorem source_connection_vertices_feature_closed_form (total : Nat → Rat) (ca : Nat → Nat → Option Rat) (u w : Nat) (dfct : Rat) (ring : List Nat)
+    (d : Dict) (a : Rat) (hnd : ring.Nodup) (hw : w ∈ ring) :
+    C18S.connVertsRingFeature total ca u dfct ring d a u w = ((a + prefixBefore ca u ring w) * dfct) / total u := by
+  rw [ringFeature_eq]; exact ringF_closed_form total ca u w dfct ring (d, a) hnd hw
+
+/-- same for an ordinary vertex with `2π` in place of `dfct` -/
+theorem source_connection_vertices_interior_closed_form (total : Nat → Rat) (ca : Nat → Nat → Option Rat) (u w : Nat) (ring : List Nat)
+    (d : Dict) (a : Rat) (hnd : ring.Nodup) (hw : w ∈ ring) :
+    C18S.connVertsRingInterior total ca u ring d a u w = (((a + prefixBefore ca u ring w) * 2) * (1 / 2)) / total u := by
+  rw [ringInterior_eq]; exact ringI_closed_form total ca u w ring (d, a) hnd hw
+
+/-- **feature ring closes on the prescribed defect, at loop level**: when the corner angles met on the ring add up to `total_angle[u]`, the transport
+of the LAST neighbour plus its own rescaled corner angle is exactly `dfct = corners·2π/order` — the fan of a feature vertex is flattened onto the
+multiple of `2π/order` the feature detector prescribes (so the constraint directions of the feature edges at `u` agree up to the frame symmetry) -/
+theorem source_connection_vertices_feature_ring_closes (total : Nat → Rat) (ca : Nat → Nat → Option Rat) (u w : Nat) (dfct : Rat) (pre : List Nat)
+    (d : Dict) (hnd : (pre ++ [w]).Nodup) (ht : total u ≠ 0) (hsum : sumAngles ca u (pre ++ [w]) = total u) :
+    C18S.connVertsRingFeature total ca u dfct (pre ++ [w]) d 0 u w + ((ca u w).getD 0 * dfct) / total u = dfct := by
+  have hw : w ∉ pre := by
+    intro hm
+    have := (List.nodup_append.mp hnd).2.2 w hm w (by simp)
+    exact this rfl
+  rw [source_connection_vertices_feature_closed_form total ca u w dfct (pre ++ [w]) d 0 hnd (by simp), prefixBefore_last ca u w pre hw]
+  have hs : sumAngles ca u (pre ++ [w]) = sumAngles ca u pre + (ca u w).getD 0 := by
+    unfold sumAngles; simp
+  rw [hs] at hsum
+  field_simp
+  linear_combination dfct * hsum
+
+/-- an ordinary ring closes on one full turn -/
+theorem source_connection_vertices_interior_ring_closes (total : Nat → Rat) (ca : Nat → Nat → Option Rat) (u w : Nat) (pre : List Nat)
+    (d : Dict) (hnd : (pre ++ [w]).Nodup) (ht : total u ≠ 0) (hsum : sumAngles ca u (pre ++ [w]) = total u) :
+    C18S.connVertsRingInterior total ca u (pre ++ [w]) d 0 u w + (ca u w).getD 0 / total u = 1 := by
+  have hw : w ∉ pre := by
+    intro hm
+    have := (List.nodup_append.mp hnd).2.2 w hm w (by simp)
+    exact this rfl
+  rw [source_connection_vertices_interior_closed_form total ca u w (pre ++ [w]) d 0 hnd (by simp), prefixBefore_last ca u w pre hw]
+  have hs : sumAngles ca u (pre ++ [w]) = sumAngles ca u pre + (ca u w).getD 0 := by
+    unfold sumAngles; simp
+  rw [hs] at hsum
+  field_simp
+  linear_combination hsum
+
+/-! ## round 7: `_initialize_attributes` of both fields, the flat face connection -/
+
+/-- face-based field, nothing customised: the feature set is the default detector with `only_border = not features`, and the connection is built
+ON THAT SAME feature set (so that `source_connection_faces_basis_on_feature` speaks about the field's own feature edges); the mesh's `cotan`
+attribute is NOT refreshed by this call (`persistent=False`: the face operator reads the mesh cache as it is) -/
+theorem source_initialize_attributes_faces_default {F C : Type} (detect : Bool → F) (connect : Option F → C) (features : Bool) :
+    C18S.initializeAttributesFaces detect connect features { feat := none, conn := none, cotOnMesh := true }
+      = { feat := some (detect (!features)), conn := some (connect (some (detect (!features)))), cotOnMesh := false } := rfl
+
+/-- a custom feature set / connection handed to the constructor is kept, and a default connection is built on the custom feature set -/
+theorem source_initialize_attributes_faces_custom {F C : Type} (detect : Bool → F) (connect : Option F → C) (features : Bool) (f : F) (c : C) (b : Bool) :
+    (C18S.initializeAttributesFaces detect connect features { feat := some f, conn := none, cotOnMesh := b }).conn = some (connect (some f)) ∧
+    (C18S.initializeAttributesFaces detect connect features { feat := some f, conn := some c, cotOnMesh := b }).conn = some c ∧
+    (C18S.initializeAttributesFaces detect connect features { feat := some f, conn := some c, cotOnMesh := b }).feat = some f := ⟨rfl, rfl, rfl⟩
+
+/-- vertex-based field: default detector with `only_border = not features` AND `corner_order = order`, connection built on it, and the mesh's `cotan`
+attribute IS refreshed (`cotangent(mesh)` persistent) — what `operators.laplacian` reads in `optimize` is the cotangent of the CURRENT geometry -/
+theorem source_initialize_attributes_vertices_default {F C : Type} (detect : Bool → Nat → F) (order : Nat) (connect : Option F → C) (features b : Bool) :
+    C18S.initializeAttributesVerts detect order connect features { feat := none, conn := none, cotOnMesh := b }
+      = { feat := some (detect (!features) order), conn := some (connect (some (detect (!features) order))), cotOnMesh := true } := rfl
+
+/-- the defect loop: `defect[v]` is the sum of the corner angles of the corners at `v` -/
+theorem source_initialize_attributes_vertices_defect (nV : Nat) (corners : List Nat) (angles : Nat → Rat) (v : Nat) (hv : v < nV) :
+    (C18S.defectSumsVerts nV corners angles).getD v 0
+      = ((List.zip (List.range corners.length) corners).map (fun it => if it.2 = v then angles it.1 else 0)).sum := by
+  unfold C18S.defectSumsVerts
+  rw [defect_fold angles v _ _ (by simpa using hv)]
+  simp [List.getD, hv]
+
+/-- **flat connection reduces to the scalar operator, at source level (faces)**: with the transports of `FlatConnectionFaces` the rows of `Nabla` the
+connection branch writes are the rows of the scalar branch (given only `U 0 = 1`), so the returned product is the scalar Laplacian on faces -/
+theorem source_laplacian_triangles_flat (U : Rat → Cpx) (hU0 : U 0 = cone) (order : Nat) (edges : List (Nat × Option Nat × Option Nat)) (tr : Nat → Nat → Rat) :
+    C18S.nablaRows U order true edges C18S.flatFacesTransport = C18S.nablaRows U order false edges tr := by
+  unfold C18S.nablaRows C18S.flatFacesTransport
+  congr 1
+  funext acc it
+  rcases it with ⟨i, t1, t2⟩
+  cases t1 <;> cases t2 <;> simp [hU0]
+
 /-! ## non-vacuity -/
 section examples
 /-- a toy `Num`: exact moduli on the few values used below; the "solver" of a 1×1 unit system -/
@@ -575,6 +660,9 @@ example : C18S.exportFacesEdges 2 2 = [(0, 1), (0, 2), (3, 4), (3, 5)] := by dec
 example : (C18S.laplacianTriplets (fun _ => cone) 4 false true [(0, 0, 1, 2)] (fun _ _ => 0) (fun _ _ => 0)).length = 12 := by decide +kernel
 example : (C18S.nablaRows (fun _ => cone) 4 true [(0, some 0, some 1), (1, some 0, none)] (fun _ _ => 0)).length = 1 := by decide +kernel
 example : C18S.connVertsTransport 1 (fun _ => [2, 1]) (fun _ => false) (fun _ => 0) 4 (fun _ => 1) (fun _ v => if v = 1 then some (1 / 4) else some (3 / 4)) 0 2 = 1 / 4 := by decide +kernel
+example : C18S.connVertsRingFeature (fun _ => 1) (fun _ v => if v = 5 then some (1 / 4) else some (3 / 4)) 0 (1 / 2) [5, 6] (fun _ _ => 0) 0 0 6
+    + ((3 : Rat) / 4 * (1 / 2)) / 1 = 1 / 2 := by decide +kernel
+example : C18S.defectSumsVerts 3 [0, 1, 2, 0, 2, 1] (fun i => (i : Rat)) = [3, 6, 6] := by decide +kernel
 end examples
 
 end Mouette.Props.C18Source
